@@ -87,6 +87,49 @@ fn check_nv(v: &Value) -> Result<(), String> {
     Ok(())
 }
 
+/// A reader that hands out at most `chunk` bytes per `read` call (a socket, a chunked adapter).
+pub struct Chunked<'a> { pub data: &'a [u8], pub pos: usize, pub chunk: usize }
+impl std::io::Read for Chunked<'_> {
+    fn read(&mut self, buf: &mut [u8]) -> std::io::Result<usize> {
+        let n = buf.len().min(self.chunk).min(self.data.len() - self.pos);
+        buf[..n].copy_from_slice(&self.data[self.pos..self.pos + n]);
+        self.pos += n;
+        Ok(n)
+    }
+}
+/// A writer that accepts at most `chunk` bytes per `write` call and uses the default `write_vectored`.
+pub struct ShortWriter { pub out: Vec<u8>, pub chunk: usize }
+impl std::io::Write for ShortWriter {
+    fn write(&mut self, buf: &[u8]) -> std::io::Result<usize> {
+        let n = buf.len().min(self.chunk);
+        self.out.extend_from_slice(&buf[..n]);
+        Ok(n)
+    }
+    fn flush(&mut self) -> std::io::Result<()> { Ok(()) }
+}
+/// A writer with a real gathered `write_vectored` that accepts at most `chunk` bytes per call.
+pub struct ShortVectored { pub out: Vec<u8>, pub chunk: usize }
+impl std::io::Write for ShortVectored {
+    fn write(&mut self, buf: &[u8]) -> std::io::Result<usize> {
+        let n = buf.len().min(self.chunk);
+        self.out.extend_from_slice(&buf[..n]);
+        Ok(n)
+    }
+    fn write_vectored(&mut self, bufs: &[std::io::IoSlice<'_>]) -> std::io::Result<usize> {
+        let mut left = self.chunk;
+        let mut n = 0;
+        for b in bufs {
+            let k = b.len().min(left);
+            self.out.extend_from_slice(&b[..k]);
+            n += k;
+            left -= k;
+            if left == 0 { break; }
+        }
+        Ok(n)
+    }
+    fn flush(&mut self) -> std::io::Result<()> { Ok(()) }
+}
+
 fn check_inner(t: &str, v: &Value) -> Result<(), String> {
     match t {
         "vi.enc" => {
@@ -101,6 +144,11 @@ fn check_inner(t: &str, v: &Value) -> Result<(), String> {
             let n = vi.write(&mut out).map_err(|e| e.to_string())?;
             ensure!(n == out.len(), "write reported {n} bytes, wrote {}", out.len());
             ensure!(out == want, "encoded {out:?}, specification {want:?}");
+            for c in 1..=3usize {
+                let mut wr = ShortWriter { out: Vec::new(), chunk: c };
+                let n = vi.write(&mut wr).map_err(|e| e.to_string())?;
+                ensure!(n == want.len() && wr.out == want, "writer accepting {c} bytes per call: reported {n}, wrote {:?}, specification {want:?}", wr.out);
+            }
             let mut cur = &out[..];
             let back = VarInt::read(&mut cur).map_err(|e| format!("decode of own encoding failed: {e}"))?;
             ensure!(back == vi && cur.is_empty(), "decode(encode({val})) = {back} leaving {} bytes", cur.len());
@@ -122,6 +170,21 @@ fn check_inner(t: &str, v: &Value) -> Result<(), String> {
                     ensure!(!ok, "failed ({e}) where the specification decodes {}", u(v, "val"));
                     ensure!(e.kind() == std::io::ErrorKind::UnexpectedEof, "error kind {:?}, expected UnexpectedEof", e.kind());
                 },
+            }
+            // the same bytes through a reader that hands them out in pieces of at most c bytes per read call
+            for c in 1..=4usize {
+                let mut rd = Chunked { data: &data, pos: 0, chunk: c };
+                match VarInt::read(&mut rd) {
+                    Ok(vi) => {
+                        ensure!(ok, "chunked reader ({c} bytes per read): decoded {vi} where the specification fails");
+                        ensure!(u64::from(u32::from(vi)) == u(v, "val"), "chunked reader ({c} bytes per read): decoded {vi}, specification {}", u(v, "val"));
+                        ensure!(rd.pos as u64 == u(v, "used"), "chunked reader ({c} bytes per read): consumed {}, specification {}", rd.pos, u(v, "used"));
+                    },
+                    Err(e) => {
+                        ensure!(!ok, "chunked reader ({c} bytes per read): failed ({e}) where the specification decodes {}", u(v, "val"));
+                        ensure!(e.kind() == std::io::ErrorKind::UnexpectedEof, "chunked reader: error kind {:?}, expected UnexpectedEof", e.kind());
+                    },
+                }
             }
             let m = dec_mirror(&data);
             ensure!(m.is_some() == ok && m.map_or(true, |(x, n)| u64::from(x) == u(v, "val") && n as u64 == u(v, "used")), "mirror disagrees with the specification");
@@ -527,6 +590,18 @@ pub fn check_name_vector(v: &Value) -> (Vec<String>, Vec<String>) {
     (mm, drift)
 }
 
+fn response_into(v: &Value, w: &mut dyn std::io::Write) -> std::io::Result<usize> {
+    use fastcgi_server::cgi::response;
+    if s(v, "t") == "redir" {
+        let loc = String::from_utf8(bytes_of(&v["loc"])).unwrap_or_default();
+        response::simple_redirect(w, &loc)
+    } else {
+        let code = http::StatusCode::from_u16(u(v, "code") as u16).expect("code");
+        let hs: Vec<(Vec<u8>, Vec<u8>)> = v["hs"].as_array().map(|a| a.iter().map(|p| (bytes_of(&p[0]), bytes_of(&p[1]))).collect()).unwrap_or_default();
+        response::write_headers(w, code, hs.iter().map(|(n, v)| (n.as_slice(), v.as_slice())))
+    }
+}
+
 pub fn check_response_vector(v: &Value) -> Vec<String> {
     use fastcgi_server::cgi::response;
     let mut mm = Vec::new();
@@ -555,6 +630,27 @@ pub fn check_response_vector(v: &Value) -> Vec<String> {
         }
         r
     };
+    // destinations that accept only part of what they are offered (plain and gathered short writes)
+    if cap >= want.len() {
+        for chunk in [1usize, 2, 7, 9, 13] {
+            for gathered in [false, true] {
+                let (out, rv) = if gathered {
+                    let mut w = ShortVectored { out: Vec::new(), chunk };
+                    let rv = response_into(v, &mut w);
+                    (w.out, rv)
+                } else {
+                    let mut w = ShortWriter { out: Vec::new(), chunk };
+                    let rv = response_into(v, &mut w);
+                    (w.out, rv)
+                };
+                if out != want || rv.as_ref().ok() != Some(&want.len()) {
+                    mm.push(format!("destination accepting {chunk} bytes per {} call: wrote {:?} and returned {rv:?}, specification {:?} / {}",
+                        if gathered { "gathered write" } else { "write" }, String::from_utf8_lossy(&out), String::from_utf8_lossy(&want), want.len()));
+                    break;
+                }
+            }
+        }
+    }
     match res {
         Ok(k) => {
             if !ok { mm.push(format!("reported success ({k} bytes) into a destination of {cap} bytes, specification: fails ({} bytes needed)", want.len())); }
